@@ -95,10 +95,15 @@ def emit_all(emit) -> None:
         params = [x.arg for x in fdef.args.args]
         if params != ["length", a, b]:
             raise TranslateError(f"{name}: parameters {params} are not (length, {a}, {b})")
+        tokens = _Translator(name, params).body(fdef.body)
+        if not ({"log", "int", "ceil", "brentq", "call", "def"} & set(tokens)):
+            # a closed-form relation (no numeric library step): sums and products are compared up to the order of their
+            # operands (exact and float `+`, `*` are commutative), so `a * b` rewritten as `b * a` is the same tree
+            tokens = _Translator(name, params, canon=True).body(fdef.body)
         emit(
             f"c03Body_{o}__{a}__{b}",
             "List String",
-            _Translator(name, params).body(fdef.body),
+            tokens,
             f"body of `{name}` (guards, branches, expressions, numeric library calls) as prefix tokens of the statement tree",
         )
 
@@ -159,6 +164,21 @@ def emit_all(emit) -> None:
 
     emit.guard(copy_preserving)
 
+    def calc_loop():
+        cdef = ast.parse(textwrap.dedent(inspect.getsource(Chop.calculate))).body[0]
+        emit(
+            "c03CalcLoop",
+            "Nat × List String × (String × String) × (String × String × String)",
+            _translate_calculate(cdef),
+            "Chop.calculate, statement by statement: (bound of the outer loop; the keys that must be known to return, sorted; "
+            "the keys of the returned pair; the arguments of the relation call: the length parameter, data[rel.<a>], data[rel.<b>]). "
+            "Fixed by the matcher: all non-None fields start as known; per round first the completeness test (return), then one "
+            "pass over ChopRelation.get_possible_combinations(): skip when the output is known, call when both inputs are known "
+            "and mark the output known; after the loop raise ValueError",
+        )
+
+    emit.guard(calc_loop)
+
 
 class TranslateError(Exception):
     pass
@@ -170,8 +190,9 @@ class _Translator:
     BIN = {"Add": "+", "Sub": "-", "Mult": "*", "Div": "/", "Pow": "**"}
     CMP = {"Lt": "<", "LtE": "<=", "Gt": ">", "GtE": ">=", "Eq": "==", "NotEq": "!="}
 
-    def __init__(self, where, params, rename=()):
+    def __init__(self, where, params, rename=(), canon=False):
         self.where = where
+        self.canon = canon         # operands of `+` and `*` in canonical (token) order: a commuted sum / product is the same tree
         self.params = set(params)
         self.ren = {}              # source name of a local / local function / its parameter -> v0, v1, …
         for p in rename:           # parameters whose names carry no meaning (validators)
@@ -228,7 +249,10 @@ class _Translator:
             op = self.BIN.get(type(e.op).__name__)
             if op is None:
                 self.fail(e, "unsupported operator")
-            return [op] + self.expr(e.left) + self.expr(e.right)
+            left, right = self.expr(e.left), self.expr(e.right)
+            if self.canon and op in ("+", "*") and right < left:
+                left, right = right, left
+            return [op] + left + right
         if isinstance(e, ast.Call):
             if e.keywords:
                 self.fail(e, "keyword arguments")
@@ -556,3 +580,70 @@ def _translate_copy_preserving(fdef):
     if not (isinstance(s6, ast.Return) and isinstance(s6.value, ast.Name) and s6.value.id == c):
         fail(s6, "not `return chop`")
     return ((k1.value, k2.value), cleared, True)
+
+
+def _translate_calculate(fdef):
+    """`Chop.calculate`: locals and parameters renamed v0, v1, … in order of first appearance, annotations / docstring /
+    comments dropped, then every statement must be the expected one (regular expressions on `ast.unparse`)."""
+    import ast
+    import re
+
+    names = {}
+
+    def nm(x):
+        if x not in names:
+            names[x] = f"v{len(names)}"
+        return names[x]
+
+    params = [a.arg for a in fdef.args.args]
+    if len(params) != 2 or params[0] != "self":
+        raise TranslateError(f"{fdef.name}: unexpected parameters {params}")
+    nm(params[1])
+    stored = {n.id for n in ast.walk(fdef) if isinstance(n, ast.Name) and isinstance(n.ctx, ast.Store)}
+
+    class Rename(ast.NodeTransformer):
+        def visit_Name(self, n):
+            if n.id in names or n.id in stored:
+                return ast.copy_location(ast.Name(id=nm(n.id), ctx=n.ctx), n)
+            return n
+
+        def visit_AnnAssign(self, n):
+            self.generic_visit(n)
+            if n.value is not None and n.simple:
+                return ast.copy_location(ast.Assign(targets=[n.target], value=n.value), n)
+            return n
+
+    body = [s for s in fdef.body
+            if not (isinstance(s, ast.Expr) and isinstance(s.value, ast.Constant) and isinstance(s.value.value, str))]
+    text = [ast.unparse(ast.fix_missing_locations(Rename().visit(s))) for s in body]
+    expected = [
+        r"v1 = dataclasses\.asdict\(self\)",
+        r"self\.results = v1",
+        r"v2 = set\(\)",
+        r"for v3 in self\.results\.keys\(\):\n    if v1\[v3\] is not None:\n        v2\.add\(v3\)",
+        r"for v4 in range\((\d+)\):\n"
+        r"    if \{([^}]*)\}\.issubset\(v2\):\n"
+        r"        self\.results\['count'\] = int\(self\.results\['count'\]\)\n"
+        r"        return \(v1\['(\w+)'\], v1\['(\w+)'\]\)\n"
+        r"    for v5 in ChopRelation\.get_possible_combinations\(\):\n"
+        r"        v6 = v5\.output\n        v7 = v5\.inputs\n        v8 = v5\.function\n"
+        r"        if v6 in v2:\n            continue\n"
+        r"        if v7\.issubset\(v2\):\n"
+        r"            v1\[v6\] = v8\((\w+), v1\[v5\.(\w+)\], v1\[v5\.(\w+)\]\)\n"
+        r"            v2\.add\(v6\)",
+        r"raise ValueError\(.*\)",
+    ]
+    if len(text) != len(expected):
+        raise TranslateError(f"{fdef.name}: {len(text)} statements instead of {len(expected)}")
+    groups = None
+    for i, (t, e) in enumerate(zip(text, expected)):
+        m = re.fullmatch(e, t, re.S)
+        if m is None:
+            raise TranslateError(f"{fdef.name}: statement {i} is not the expected one: {t[:200]}")
+        if m.groups():
+            groups = m.groups()
+    n, keys, k1, k2, a0, a1, a2 = groups
+    req = sorted(ast.literal_eval("{" + keys + "}"))
+    if not all(isinstance(k, str) for k in req):
+        raise TranslateError(f"{fdef.name}: the required keys are not strings")
+    return (int(n), req, (k1, k2), ("length" if a0 == "v0" and params[1] == "length" else a0, a1, a2))
